@@ -70,6 +70,12 @@ func loadSeams(path string) {
 		os.Exit(2)
 	}
 	simrt.FuncNames = s.Funcs
+	simrt.NoFaultFn = make([]bool, len(s.Funcs))
+	for i, f := range s.Funcs {
+		if strings.HasPrefix(f, "internal/monitor.") {
+			simrt.NoFaultFn[i] = true
+		}
+	}
 	simrt.TickNames = s.TickSites
 	for _, r := range s.RangeSites {
 		for len(simrt.SiteNames) <= r.ID {
@@ -481,6 +487,7 @@ func prepare(ec *execCtx, c *spec.Call, a *args, g *simrt.Group, mon *recMon) (b
 		oc.ClockReads = g.ClockReads
 		oc.ArgsMutated = a.mutated()
 		oc.LeakedTasks = t.LiveOthersAtEnd
+		oc.Tasks = g.NTasks
 		if mon != nil {
 			oc.Events = mon.count
 			oc.FaultFired = mon.fired
@@ -499,6 +506,26 @@ func prepare(ec *execCtx, c *spec.Call, a *args, g *simrt.Group, mon *recMon) (b
 		}
 		for _, p := range g.Perms {
 			oc.Perms = append(oc.Perms, spec.AppliedPerm{Site: simrt.SiteName(p.Site), Occ: p.Occ, N: p.N, Perm: p.Perm})
+		}
+		if cp := g.ChildPanic; cp != nil {
+			// a panic in a goroutine started by the library cannot be recovered by the caller: in real Go the process dies
+			switch p := cp.(type) {
+			case simrt.BudgetExceeded:
+				oc.Verdict, oc.Detail = "BUDGET", p.Kind
+				oc.Site, oc.Stack = moduleFrame(g.ChildStack)
+				oc.Hash = hashOf("BUDGET|" + p.Kind)
+			case simrt.InjectedPanic, injectedMonitorPanic:
+				oc.Verdict, oc.Detail, oc.FaultFired = "FATAL", "injected panic reached a goroutine started by Layout (process-fatal)", true
+				oc.Hash = hashOf("FATAL|injected")
+			case simrt.HarnessError:
+				oc.Verdict, oc.Detail = "HARNESS", p.Msg
+			default:
+				oc.Verdict = "FATAL"
+				oc.Detail = "panic in a goroutine started by Layout: " + normMsg(cp)
+				oc.Site, oc.Stack = moduleFrame(g.ChildStack)
+				oc.Hash = hashOf("FATAL|" + oc.Detail + "|" + oc.Site)
+			}
+			return oc
 		}
 		switch {
 		case returned:
@@ -686,7 +713,13 @@ func runHistory(job *spec.Job) spec.Result {
 			r = &job.Res[i]
 		}
 		ec := &execCtx{job: job, hist: h, callIdx: i}
-		res.Outcomes = append(res.Outcomes, runOne(ec, c, a, r, mon))
+		oc := runOne(ec, c, a, r, mon)
+		res.Outcomes = append(res.Outcomes, oc)
+		if oc.Verdict == "FATAL" || oc.Verdict == "HARNESS" || ((oc.Verdict == "BUDGET" || oc.Verdict == "DEADLOCK") && oc.Tasks > 1) {
+			// the process would be dead (or, for an aborted multi-goroutine call, in an undefined state):
+			// the history ends here; later calls are not executed
+			break
+		}
 	}
 	res.Events = h.events
 	return res
